@@ -313,6 +313,15 @@ def small_groups(tier):
                       'forms': ['smarts'] * len(sub), 'spell': [0, 0]}]
             groups.append({'id': 'q-%s-%s' % (tag, '+'.join(sub)),
                            'cases': cases})
+    # a charged seed together with its neutral twin: species that differ only
+    # in formal charge are different species
+    for tag, pair in (('ammonium+amine', ['C[NH3+]', 'CN']),
+                      ('amine+ammonium', ['CN', 'C[NH3+]'])):
+        for sub in (['ANYbreak'], ['CH', 'ANYbreak'], ['ANYbreak', 'ANYup']):
+            groups.append({'id': 'q-%s-%s' % (tag, '+'.join(sub)),
+                           'cases': [{'seeds': list(pair), 'rules': list(sub),
+                                      'forms': ['smarts'] * len(sub),
+                                      'spell': [0, 0]}]})
     return groups
 
 
